@@ -122,6 +122,8 @@ def _mk_bad(case):
         return np.array(base + [base[case["i"] % len(base)]], dtype="int64")
     if k == "dup_index":
         return pd.Index(np.array(base + [base[case["i"] % len(base)]], dtype="int64"))
+    if k == "dup_index_sorted":
+        return pd.Index(np.array(sorted(base + [base[case["i"] % len(base)]]), dtype="int64"))
     if k == "frac_list":
         b = [float(v) for v in base]
         b[case["i"] % len(b)] += case["frac"]
@@ -149,7 +151,7 @@ def _mk_bad(case):
     raise ValueError(k)
 
 
-BAD_VALUE_ERR = ("dup_list", "dup_array", "dup_index")
+BAD_VALUE_ERR = ("dup_list", "dup_array", "dup_index", "dup_index_sorted")
 BAD_TYPE_ERR = ("str", "float_scalar", "tuple", "set", "dict", "none", "object")
 BAD_EITHER = ("frac_list", "frac_array", "str_list")
 
